@@ -1803,6 +1803,16 @@ class Interp:
             for k, v in src.d.items():
                 self.setitem(d, k, v, None)
             return
+        if isinstance(src, MDict) and isinstance(d, MDict):
+            # a dict with symbolic contributions: its (key, value) pairs in insertion order
+            for k, v in src.d.items():
+                self.setitem(d, k, v, None)
+            pairs = list(src.nodes)
+            if len(self.ctx.generic) <= d.depth and len(self.ctx.preds) <= d.pdepth:
+                d.nodes.extend(pairs)
+            else:
+                self._append_nested(d.nodes, pairs, d)
+            return
         if isinstance(src, dict):
             for k, v in src.items():
                 self.setitem(d, k, from_native(v), None)
